@@ -23,6 +23,11 @@ class Unbounded(Exception):
     """the awaited operation is still running after `horizon` virtual seconds (bounded-progress verdict in logical time)"""
 
 
+class Spinning(Exception):
+    """the code under test used more than `cpu_limit` seconds of CPU time inside one run() - in practice a loop without a
+    suspension point (e.g. re-reading an ended stream), which no timeout of the caller can interrupt"""
+
+
 class VirtualTimeLoop(asyncio.SelectorEventLoop):
     def __init__(self, horizon: float | None = None) -> None:
         super().__init__()
@@ -50,14 +55,29 @@ class VirtualTimeLoop(asyncio.SelectorEventLoop):
         return self._vt
 
 
-def run(coro: Coroutine[Any, Any, Any], debug: bool = False, horizon: float | None = None) -> Any:
+def run(coro: Coroutine[Any, Any, Any], debug: bool = False, horizon: float | None = None, cpu_limit: float | None = None) -> Any:
     """Run `coro` to completion in a fresh virtual-time loop. Raises Deadlock if it can never complete, Unbounded if it is
-    still running after `horizon` virtual seconds (when a horizon is given)."""
+    still running after `horizon` virtual seconds (when a horizon is given), Spinning if it burns more than `cpu_limit` seconds of
+    this process' CPU time (ITIMER_VIRTUAL: user time of the process, independent of machine load; main thread only)."""
+    import signal
+    import threading
+
     loop = VirtualTimeLoop(horizon)
+    armed = cpu_limit is not None and threading.current_thread() is threading.main_thread()
+    old_handler = None
+    if armed:
+        def on_timer(signum: int, frame: Any) -> None:
+            raise Spinning()
+
+        old_handler = signal.signal(signal.SIGVTALRM, on_timer)
+        signal.setitimer(signal.ITIMER_VIRTUAL, cpu_limit)
     try:
         asyncio.set_event_loop(loop)
         return loop.run_until_complete(coro)
     finally:
+        if armed:
+            signal.setitimer(signal.ITIMER_VIRTUAL, 0)
+            signal.signal(signal.SIGVTALRM, old_handler if old_handler is not None else signal.SIG_DFL)
         try:
             # cancel leftovers without waiting on them in case of deadlock
             for t in asyncio.all_tasks(loop):
